@@ -34,7 +34,7 @@ impl Property for C04 {
         "Cases: (LHS operand of any zoo type/length/provenance, RHS vector of any type/length/provenance or native integer, op in {&,|,^}, one of 6 operator forms) and (operand, ! owned|borrowed). Enumerated: all (n,a,m,b) with n,m<=3 (quick) / <=5 (thorough) for all 18x18 type pairings and 3 ops; all (n<=3/5,a) x integer lattice x 18 x 6 native types; every LHS length up to capacity (<=320) against an all-ones RHS of length n+1 / next word boundary / RHS capacity for all pairings; ! on all values n<=8 and every length with 3 value classes. Random: proptest. Oracle: per-bit Boolean function on bit lists (RHS zero-extended, cut at n) + observer battery. Non-trivial: result differs from a AND (RHS longer than LHS with a set bit at index >= n, or LHS longer than RHS with a set bit above m); for !: n not a multiple of the storage word and n>0. Distinct by hash of the whole case.".into()
     }
     fn random_cases(&self, tier: Tier) -> u64 {
-        tier.pick(40_000, 500_000)
+        tier.pick(200000, 1000000)
     }
     fn strategy(&self, tier: Tier) -> BoxedStrategy<C04Case> {
         prop_oneof![
@@ -115,11 +115,12 @@ impl Property for C04 {
                     ms.dedup();
                     for m in ms {
                         for op in LOGIC {
-                            rot += 1;
-                            let a = realize_val(&ValPat::Alt(true), n, 8);
-                            let c = C04Case::Bin { a: Operand::canon(lt, a), b: Rhs::V(Operand::canon(rt, Bits::ones(m))), op, form: FORMS[rot % 6] };
-                            if !f(c) {
-                                return;
+                            for a in [realize_val(&ValPat::Alt(true), n, 8), Bits::zeros(n)] {
+                                rot += 1;
+                                let c = C04Case::Bin { a: Operand::canon(lt, a), b: Rhs::V(Operand::canon(rt, Bits::ones(m))), op, form: FORMS[rot % 6] };
+                                if !f(c) {
+                                    return;
+                                }
                             }
                         }
                     }
